@@ -218,6 +218,12 @@ mod n {
 
     /// ... with the space itself turned within the building (AZIMUTH of the SPACE, clockwise like every BDL angle)
     fn cubo_variant_turned(off: (f32, f32, f32), dev: f32, outline: &[(f32, f32)], space_az: f32) -> String {
+        cubo_variant_full(off, dev, outline, space_az, 90.0)
+    }
+
+    /// ... and with the overhang of every window at `oh_angle` degrees from the wall plane (90 = perpendicular,
+    /// 0 = hanging down parallel to the wall, more than 90 = rising)
+    fn cubo_variant_full(off: (f32, f32, f32), dev: f32, outline: &[(f32, f32)], space_az: f32, oh_angle: f32) -> String {
         let mut s = CUBO.to_string();
         // building deviation from north (clockwise, degrees)
         let bp = s.find("= BUILD-PARAMETERS").expect("BUILD-PARAMETERS");
@@ -246,7 +252,8 @@ mod n {
             blocks.push_str(&format!("\"{}\" = BUILDING-SHADE\n      BULB-TRA = \"Default.bulb\"\n      BULB-REF = \"Default.bulb\"\n      TRAN     =              0\n      REFL     =            0.7\n      X        = {}\n      Y        = {}\n      Z        = {}\n      HEIGHT   = {}\n      WIDTH    = {}\n      TILT     = {}\n      AZIMUTH  = {}\n           ..\n", name, x, y, z, h, w, tilt, az));
         }
         s.insert_str(sh, &blocks);
-        s
+        // an overhang and two fins on every window
+        with_window_protections(&s, 6).replace("OVERHANG-ANGLE = 90", &format!("OVERHANG-ANGLE = {}", oh_angle))
     }
 
     const RECT_SHADES: [(&str, f32, f32, f32, f32, f32, f32, f32); 3] = [
@@ -266,7 +273,7 @@ mod n {
 
     #[test]
     fn n_c03_conversion() {
-        drive("C03.conversion", "shipped project `cubo` re-written with space offset {(0,0,0),(3,7,0),(-4,2,1.5)} x building deviation {0,30,135,270} x space turned within the building by {0,30,250} (zero offset) x outline {square 10x10, trapezoid}; parsed and converted by the real code; positions to 1 cm against the source definition", |c| {
+        drive("C03.conversion", "shipped project `cubo` re-written with space offset {(0,0,0),(3,7,0),(-4,2,1.5)} x building deviation {0,30,135,270} x space turned within the building by {0,30,250} (zero offset) x outline {square 10x10, trapezoid}; an overhang (at 90 / 60 / 120 degrees from the wall) and two fins on every window; parsed and converted by the real code; positions to 1 cm against the source definition", |c| {
             let off = c.of(&[(0.0f32, 0.0f32, 0.0f32), (3.0, 7.0, 0.0), (-4.0, 2.0, 1.5)]);
             let dev = c.of(&[0.0f32, 30.0, 135.0, 270.0]);
             // a space turned within the building: with a zero offset, so that the order of turning and shifting the
@@ -275,10 +282,12 @@ mod n {
             if space_az != 0.0 && off != (0.0, 0.0, 0.0) {
                 return;
             }
+            // overhangs perpendicular to the wall, sloping down (60) and rising (120)
+            let oh_angle = c.of(&[90.0f32, 60.0, 120.0]);
             let square = c.flag();
             let outline: Vec<(f32, f32)> = if square { vec![(0.0, 0.0), (10.0, 0.0), (10.0, 10.0), (0.0, 10.0)] } else { vec![(0.0, 0.0), (10.0, 0.0), (8.0, 6.0), (1.0, 7.0)] };
-            c.note(format!("offset {:?} deviation {} space azimuth {} outline {:?}", off, dev, space_az, outline));
-            let text = cubo_variant_turned(off, dev, &outline, space_az);
+            c.note(format!("offset {:?} deviation {} space azimuth {} overhang angle {} outline {:?}", off, dev, space_az, oh_angle, outline));
+            let text = cubo_variant_full(off, dev, &outline, space_az, oh_angle);
             let data = match hulc::ctehexml::parse_with_catalog(&text) {
                 Ok(d) => d,
                 Err(e) => {
@@ -359,6 +368,45 @@ mod n {
                     None => c.check("C03.window.present", false, || format!("window {} missing", bwin.name)),
                     Some(w) => {
                         let g = &w.geometry;
+                        // the overhang and the fins written on the window: where the source definition puts them
+                        // (wall coordinates: x to the right seen from outside, y up, depth along the outward normal)
+                        if let Some(bw) = data.bdldata.walls.iter().find(|x| x.name == bwin.wall) {
+                            if let Some(loc) = bw.location.as_deref().filter(|l| l.starts_with('V')) {
+                                let kk: usize = loc[1..].parse::<usize>().unwrap() - 1;
+                                let (p, q) = (outline[kk], outline[(kk + 1) % outline.len()]);
+                                let len = ((q.0 - p.0).powi(2) + (q.1 - p.1).powi(2)).sqrt();
+                                let (ux, uy) = ((q.0 - p.0) / len, (q.1 - p.1) / len);
+                                let (nx, ny) = (uy, -ux);
+                                // point at wall coordinates (x, y) pushed out by d
+                                let at = |x: f32, y: f32, d: f32| to_world(p.0 + x * ux + d * nx, p.1 + x * uy + d * ny, y);
+                                let top = bwin.y + bwin.height;
+                                let mut expect: Vec<(String, Vec<Point3<f32>>)> = vec![];
+                                if let Some(o) = &bwin.overhang {
+                                    let (x0, y0) = (bwin.x - o.a, top + o.b);
+                                    // the outer edge: `angle` away from the downward wall direction, turning outwards
+                                    let (dy, dn) = (-(o.angle.to_radians().cos()) * o.depth, o.angle.to_radians().sin() * o.depth);
+                                    expect.push((format!("{}_overhang", bwin.name), vec![at(x0, y0, 0.0), at(x0 + o.width, y0, 0.0), at(x0 + o.width, y0 + dy, dn), at(x0, y0 + dy, dn)]));
+                                }
+                                if let Some(f) = &bwin.left_fin {
+                                    let (x0, y0) = (bwin.x - f.a, top - f.b);
+                                    expect.push((format!("{}_left_fin", bwin.name), vec![at(x0, y0, 0.0), at(x0, y0 - f.height, 0.0), at(x0, y0 - f.height, f.depth), at(x0, y0, f.depth)]));
+                                }
+                                if let Some(f) = &bwin.right_fin {
+                                    let (x0, y0) = (bwin.x + bwin.width + f.a, top - f.b);
+                                    expect.push((format!("{}_right_fin", bwin.name), vec![at(x0, y0, 0.0), at(x0, y0 - f.height, 0.0), at(x0, y0 - f.height, f.depth), at(x0, y0, f.depth)]));
+                                }
+                                c.check("C03.window.protections_written", expect.len() == 3, || format!("window {}: {} of 3 protections parsed", bwin.name, expect.len()));
+                                for (sname, want) in expect {
+                                    match model.shades.iter().find(|m| m.name == sname) {
+                                        None => c.check("C03.window.protection.present", false, || format!("shade {} missing", sname)),
+                                        Some(ms) => {
+                                            let got = world_corners(&ms.geometry);
+                                            c.check("C03.window.protection.corners", same_set(&got, &want, 0.011), || format!("{}: corners {:?} want {:?}", sname, got, want));
+                                        }
+                                    }
+                                }
+                            }
+                        }
                         c.check("C03.window.keeps_geometry", (g.width - bwin.width).abs() < 0.01 && (g.height - bwin.height).abs() < 0.01 && (g.setback - bwin.setback).abs() < 0.01 && matches!(g.position, Some(p) if (p.x - bwin.x).abs() < 0.01 && (p.y - bwin.y).abs() < 0.01), || format!("window {}: {:?} vs source ({}, {}) {}x{} setback {}", bwin.name, g, bwin.x, bwin.y, bwin.width, bwin.height, bwin.setback));
                     }
                 }
@@ -391,7 +439,7 @@ mod n {
             }
             // turning the building leaves areas, volumes, K and n50 unchanged (compared with the unturned variant)
             if dev != 0.0 {
-                let base = Model::try_from(&hulc::ctehexml::parse_with_catalog(&cubo_variant_turned(off, 0.0, &outline, space_az)).unwrap()).unwrap();
+                let base = Model::try_from(&hulc::ctehexml::parse_with_catalog(&cubo_variant_full(off, 0.0, &outline, space_az, oh_angle)).unwrap()).unwrap();
                 let (a, b) = (model.energy_indicators(), base.energy_indicators());
                 c.check("C03.rotation.invariants", (a.area_ref - b.area_ref).abs() < 0.011 && (a.vol_env_net - b.vol_env_net).abs() < 0.011 && (a.K_data.K - b.K_data.K).abs() < 1e-3 && (a.n50_data.n50 - b.n50_data.n50).abs() < 1e-3, || format!("turned by {}: A {} / {} V {} / {} K {} / {} n50 {} / {}", dev, a.area_ref, b.area_ref, a.vol_env_net, b.vol_env_net, a.K_data.K, b.K_data.K, a.n50_data.n50, b.n50_data.n50));
                 // every azimuth shifts by -dev (mod 360)
@@ -400,7 +448,7 @@ mod n {
                     c.check("C03.rotation.azimuth_shift", d < 0.02 || d > 359.98, || format!("wall {}: azimuth {} -> {} after turning by {}", w.name, w0.geometry.azimuth, w.geometry.azimuth, dev));
                 }
             }
-            c.nontrivial(format!("{:?} {} {}", off, dev, square));
+            c.nontrivial(format!("{:?} {} {} {} {}", off, dev, space_az, oh_angle, square));
             c.sample(|| format!("offset {:?} deviation {} square {} -> {} walls {} windows {} shades", off, dev, square, model.walls.len(), model.windows.len(), model.shades.len()));
         });
     }
@@ -766,6 +814,163 @@ mod n {
         broken_refs("C02.broken", "all 12 shipped .ctehexml projects: every referenced definition renamed (suffix / lower case) or removed, one at a time; real parser + converter", |all| all.to_vec());
     }
 
+    /// every place where a defined name is written as a reference: (byte offset of the name, name, kind of the block
+    /// the reference is written in, attribute it is written under)
+    fn reference_sites(text: &str) -> Vec<(usize, String, String, String)> {
+        let defs = definitions(text);
+        let names: std::collections::BTreeSet<&str> = defs.iter().map(|d| d.1.as_str()).collect();
+        let def_at: std::collections::BTreeSet<usize> = defs.iter().map(|d| d.0).collect();
+        let mut out = vec![];
+        let (mut off, mut block, mut key, mut next_def) = (0usize, String::new(), String::new(), 0usize);
+        for line in text.split_inclusive('\n') {
+            let t = line.trim();
+            if t.starts_with('<') || t == ".." {
+                key.clear();
+                if t.starts_with('<') {
+                    block.clear();
+                }
+            }
+            while next_def < defs.len() && defs[next_def].0 < off {
+                next_def += 1;
+            }
+            if next_def < defs.len() && defs[next_def].0 < off + line.len() {
+                block = defs[next_def].2.clone();
+                key.clear();
+            } else if let Some((k, _)) = t.split_once('=') {
+                let k = k.trim();
+                if !k.is_empty() && !k.contains('"') && !k.contains('(') {
+                    key = k.to_string();
+                }
+            }
+            // quoted names of this line
+            let mut from = 0;
+            while let Some(a) = line[from..].find('"') {
+                let start = from + a + 1;
+                let Some(len) = line[start..].find('"') else { break };
+                let name = &line[start..start + len];
+                if names.contains(name) && !def_at.contains(&(off + start)) && !block.is_empty() && !key.is_empty() {
+                    out.push((off + start, name.to_string(), block.clone(), key.clone()));
+                }
+                from = start + len + 1;
+            }
+            off += line.len();
+        }
+        out
+    }
+
+    // the attributes under which the links listed by the property are written (wall -> construction / adjacent space,
+    // construction -> layers, layers -> material, window -> window construction, window construction -> glazing /
+    // frame, space -> loads / thermostat, loads / thermostat -> yearly schedule, yearly -> weekly -> daily schedule)
+    const LINK_KEYS: [(&str, &str); 18] = [
+        ("EXTERIOR-WALL", "CONSTRUCTION"), ("INTERIOR-WALL", "CONSTRUCTION"), ("UNDERGROUND-WALL", "CONSTRUCTION"), ("ROOF", "CONSTRUCTION"),
+        ("INTERIOR-WALL", "NEXT-TO"), ("CONSTRUCTION", "LAYERS"), ("LAYERS", "MATERIAL"), ("WINDOW", "GAP"),
+        ("GAP", "GLASS-TYPE"), ("GAP", "NAME-FRAME"), ("SPACE", "SPACE-CONDITIONS"), ("SPACE", "SYSTEM-CONDITIONS"),
+        ("SPACE-CONDITIONS", "PEOPLE-SCHEDULE"), ("SPACE-CONDITIONS", "EQUIP-SCHEDULE"), ("SPACE-CONDITIONS", "LIGHTING-SCHEDULE"),
+        ("SYSTEM-CONDITIONS", "COOL-TEMP-SCH"), ("SYSTEM-CONDITIONS", "HEAT-TEMP-SCH"), ("WEEK-SCHEDULE-PD", "DAY-SCHEDULES"),
+    ];
+
+    // every project obtained from a shipped one by breaking ONE written reference (the definition stays, one place that
+    // names it now names nothing): rejected; a model is acceptable only when the block that holds the reference is not
+    // part of the model (an unused library entry), and then it is closed and has lost no link
+    #[test]
+    fn n_c02_broken_sites() {
+        struct Project {
+            fname: String,
+            text: String,
+            base_json: Option<String>,
+            base_links: usize,
+            // (offset, referenced name, block kind, key, name of the block that holds the reference, is that block
+            // part of the model: an element of that name, or - for a CONSTRUCTION, which the model does not keep by
+            // name - a wall of the model that uses it)
+            sites: Vec<(usize, String, String, String, String, bool)>,
+        }
+        let catalogue = hulc::ctehexml::load_lider_catalog().expect("LIDER catalogue");
+        let projects: Vec<Project> = project_files()
+            .iter()
+            .map(|f| {
+                let text = std::fs::read_to_string(f).unwrap();
+                let (base_json, base_links, base) = match convert_text(text.clone()) {
+                    Outcome::Model(m) => (m.as_json().ok(), optional_links(&m), Some(m)),
+                    _ => (None, usize::MAX, None),
+                };
+                let defs = definitions(&text);
+                let all = reference_sites(&text);
+                let mut groups: std::collections::BTreeMap<(String, String), Vec<usize>> = Default::default();
+                for (i, s) in all.iter().enumerate() {
+                    if LINK_KEYS.iter().any(|(b, k)| *b == s.2 && *k == s.3) {
+                        groups.entry((s.2.clone(), s.3.clone())).or_default().push(i);
+                    }
+                }
+                let holder_of = |at: usize| defs[..defs.partition_point(|d| d.0 < at)].last().map(|d| d.1.clone()).unwrap_or_default();
+                let in_model = |n: &str| base_json.as_ref().map(|j| j.contains(&format!("\"{}\"", n))).unwrap_or(false);
+                let mut sites = vec![];
+                for idx in groups.values() {
+                    for &i in idx {
+                        let (at, name, block, key) = all[i].clone();
+                        let holder = holder_of(at);
+                        // HULC writes a construction again after every wall that uses it: the last definition counts
+                        let last_def = defs.iter().filter(|d| d.1 == holder && d.2 == block).last().map(|d| d.0 < at && holder_of(at) == holder && defs[..defs.partition_point(|x| x.0 < at)].last().map(|x| x.0) == Some(d.0)).unwrap_or(false);
+                        // the links that a model may lack count where the intact model has them
+                        let link_present = match (base.as_ref(), block.as_str(), key.as_str()) {
+                            (Some(m), "SPACE", "SPACE-CONDITIONS") => m.spaces.iter().any(|s| s.name == holder && s.loads.is_some()),
+                            (Some(m), "SPACE", "SYSTEM-CONDITIONS") => m.spaces.iter().any(|s| s.name == holder && s.thermostat.is_some()),
+                            (Some(m), "INTERIOR-WALL", "NEXT-TO") => m.walls.iter().any(|w| w.name == holder && w.next_to.is_some()),
+                            (Some(m), "SPACE-CONDITIONS", "PEOPLE-SCHEDULE") => m.loads.iter().any(|l| l.name == holder && l.people_schedule.is_some()),
+                            (Some(m), "SPACE-CONDITIONS", "EQUIP-SCHEDULE") => m.loads.iter().any(|l| l.name == holder && l.equipment_schedule.is_some()),
+                            (Some(m), "SPACE-CONDITIONS", "LIGHTING-SCHEDULE") => m.loads.iter().any(|l| l.name == holder && l.lighting_schedule.is_some()),
+                            (Some(m), "SYSTEM-CONDITIONS", "COOL-TEMP-SCH") => m.thermostats.iter().any(|t| t.name == holder && t.temp_max.is_some()),
+                            (Some(m), "SYSTEM-CONDITIONS", "HEAT-TEMP-SCH") => m.thermostats.iter().any(|t| t.name == holder && t.temp_min.is_some()),
+                            (Some(_), _, _) => true,
+                            (None, _, _) => false,
+                        };
+                        // parse_with_catalog lets the LIDER catalogue's entry of the same name replace the project's
+                        let from_catalogue = match block.as_str() {
+                            "GAP" => catalogue.wincons.contains_key(&holder),
+                            "LAYERS" => catalogue.wallcons.contains_key(&holder),
+                            _ => false,
+                        };
+                        let used = last_def && link_present && !from_catalogue && (in_model(&holder) || (block == "CONSTRUCTION" && all.iter().any(|r| r.1 == holder && r.3 == "CONSTRUCTION" && in_model(&holder_of(r.0)))));
+                        sites.push((at, name, block, key, holder, used));
+                    }
+                }
+                Project { fname: f.file_name().unwrap().to_string_lossy().to_string(), text, base_json, base_links, sites }
+            })
+            .collect();
+        drive("C02.broken_sites", "all 12 shipped .ctehexml projects: ONE place where a link of the property's list is written (wall -> construction / adjacent space, construction -> layers, layers -> material, window -> window construction, window construction -> glazing / frame, space -> loads / thermostat, loads / thermostat -> yearly schedule, yearly -> weekly -> daily schedule) renamed to a name that is not defined; every such place (4 100), one at a time", |c| {
+            c.check("C02.broken_sites.corpus", projects.len() >= 12 && projects.iter().all(|p| p.sites.len() >= 15), || format!("reference places not found: {:?}", projects.iter().map(|p| p.sites.len()).collect::<Vec<_>>()));
+            let k = c.pick(projects.len());
+            let p = &projects[k];
+            c.check("C02.broken.base_converts", p.base_json.is_some(), || format!("{} itself does not convert", p.fname));
+            let Some(base_json) = p.base_json.as_ref() else { return };
+            let s = c.pick(p.sites.len());
+            let (at, name, block, key, holder, used) = &p.sites[s];
+            let what = format!("{}: {} \"{}\".{} = \"{}\" renamed", p.fname, block, holder, key, name);
+            c.note(what.clone());
+            let mut t = p.text.clone();
+            t.insert_str(at + name.len(), "_gone");
+            match convert_text(t) {
+                Outcome::Model(m) => {
+                    judge_model(c, &what, &m);
+                    let links = optional_links(&m);
+                    c.check("C02.broken.no_missing_links", links >= p.base_links, || format!("{}: converted to a model with {} optional links, the intact project has {}", what, links, p.base_links));
+                    c.check("C02.broken_sites.rejected", !*used, || format!("{}: the block is part of the model, yet the project converts ({})", what, if m.as_json().ok().as_ref() == Some(base_json) { "to the same model as the intact project: the written reference is not read" } else { "to another model" }));
+                    c.nontrivial(format!("{} {} still converts", block, key));
+                    c.sample(|| format!("{} -> still a closed model (unused library entry)", what));
+                }
+                Outcome::Rejected(e) => {
+                    c.check("C02.broken.rejected", !e.is_empty(), || "empty error".to_string());
+                    c.nontrivial(format!("{} {} {}", block, key, e.chars().take(40).collect::<String>()));
+                    c.sample(|| format!("{} -> error: {}", what, e.chars().take(90).collect::<String>()));
+                }
+                Outcome::Crashed(msg) => c.check("C02.rejects_with_error", false, || format!("{}: conversion panicked instead of returning an error: {}", what, msg.chars().take(200).collect::<String>())),
+                Outcome::Hung => {
+                    c.check("C02.rejects_with_error", false, || format!("{}: no answer in 60 s", what));
+                    c.stop();
+                }
+            }
+        });
+    }
+
     // every project obtained from a shipped one by writing another value for one number: still closed, or an error
     #[test]
     fn n_c02_value_edits() {
@@ -936,6 +1141,8 @@ mod n {
             2 => &["LEFT-FIN-D = 0.4", "LEFT-FIN-H = 1.1"],
             3 => &["OVERHANG-D = 0.6", "OVERHANG-W = 1.5"],
             4 => &["RIGHT-FIN-D = 0.5", "RIGHT-FIN-H = 1.2", "LEFT-FIN-D = 0.4", "LEFT-FIN-H = 1.1", "OVERHANG-D = 0.6", "OVERHANG-W = 1.5"],
+            // sizes used by the geometry oracle of C03 (overhang perpendicular to the wall)
+            6 => &["OVERHANG-A = 0.3", "OVERHANG-B = 0.2", "OVERHANG-D = 0.6", "OVERHANG-W = 2.4", "OVERHANG-ANGLE = 90", "LEFT-FIN-A = 0.15", "LEFT-FIN-B = 0.1", "LEFT-FIN-D = 0.5", "LEFT-FIN-H = 1.1", "RIGHT-FIN-A = 0.25", "RIGHT-FIN-B = 0.05", "RIGHT-FIN-D = 0.4", "RIGHT-FIN-H = 1.0"],
             // the usual symmetric case: both fins with the same sizes
             5 => &["RIGHT-FIN-A = 0.1", "RIGHT-FIN-B = 0.2", "RIGHT-FIN-D = 0.5", "RIGHT-FIN-H = 1.2", "LEFT-FIN-A = 0.1", "LEFT-FIN-B = 0.2", "LEFT-FIN-D = 0.5", "LEFT-FIN-H = 1.2", "OVERHANG-D = 0.5", "OVERHANG-W = 1.2"],
             _ => return text.to_string(),
@@ -1033,6 +1240,84 @@ mod n {
             c.check("C05.ids.local", moved.is_empty(), || format!("{} (window protections {}): adding an unrelated {} changed the id of (or lost) {} elements, e.g. {:?}", fname, protections, kind, moved.len(), &moved[..moved.len().min(3)]));
             c.nontrivial(format!("{} {} {} {}", fname, kind, protections, other_numbers));
             c.sample(|| format!("{}: twin of {} \"{}\": {} -> {} elements", fname, kind, name, a.len(), b.len()));
+        });
+    }
+
+    // element kinds keep their names apart (a yearly, a weekly and a daily schedule, or a material and a layer set,
+    // may carry the same name: shipped projects already name a CONSTRUCTION and its LAYERS alike): a definition of one
+    // kind under the name of an element of another kind is an unrelated definition too
+    const NAMESAKE_KINDS: [&str; 10] = ["MATERIAL", "LAYERS", "GLASS-TYPE", "NAME-FRAME", "GAP", "DAY-SCHEDULE-PD", "WEEK-SCHEDULE-PD", "SCHEDULE-PD", "SPACE-CONDITIONS", "SYSTEM-CONDITIONS"];
+
+    #[test]
+    fn n_c05_ids_namesake() {
+        let files = project_files();
+        let projects: Vec<(String, String, Vec<(usize, String, String)>, Option<Model>)> = files
+            .iter()
+            .map(|f| {
+                let text = std::fs::read_to_string(f).unwrap();
+                let defs = definitions(&text);
+                let base = hulc::ctehexml::parse_with_catalog(&text).ok().and_then(|d| Model::try_from(&d).ok());
+                (f.file_name().unwrap().to_string_lossy().to_string(), text, defs, base)
+            })
+            .collect();
+        // [start, end) of the block whose name is written at `at`
+        fn extent(text: &str, at: usize) -> (usize, usize) {
+            let start = text[..at].rfind('\n').map(|i| i + 1).unwrap_or(0);
+            let mut end = start;
+            for line in text[start..].split_inclusive('\n') {
+                end += line.len();
+                if line.trim_end().ends_with("..") {
+                    break;
+                }
+            }
+            (start, end)
+        }
+        drive("C05.namesake", "all 12 shipped projects x ordered pairs of 10 library kinds (material, layer set, glazing, frame, window construction, daily / weekly / yearly schedule, loads, thermostat): a copy of the first block of one kind is added under the NAME of the first / last element of the other kind, right before or right after that element's block; every element of the original model keeps its id, and no two elements of the new model share an id", |c| {
+            let k = c.pick(projects.len());
+            let a_kind = c.of(&NAMESAKE_KINDS);
+            let b_kind = c.of(&NAMESAKE_KINDS);
+            let which_b = c.pick(2);
+            let after = c.flag();
+            if a_kind == b_kind {
+                return;
+            }
+            let (fname, text, defs, base) = &projects[k];
+            let Some(base) = base.as_ref() else { return };
+            let Some(a) = defs.iter().find(|d| d.2 == a_kind) else { return };
+            let of_b: Vec<&(usize, String, String)> = defs.iter().filter(|d| d.2 == b_kind).collect();
+            if of_b.is_empty() || (which_b == 1 && of_b.len() == 1) {
+                return;
+            }
+            let b = of_b[[0, of_b.len() - 1][which_b]];
+            // the name must not already be taken inside kind A
+            if defs.iter().any(|d| d.2 == a_kind && d.1 == b.1) {
+                return;
+            }
+            c.note(format!("{}: a copy of {} \"{}\" named as {} \"{}\", {} it", fname, a_kind, a.1, b_kind, b.1, if after { "after" } else { "before" }));
+            let (a0, a1) = extent(text, a.0);
+            let twin = text[a0..a1].replace(&format!("\"{}\"", a.1), &format!("\"{}\"", b.1));
+            let (b0, b1) = extent(text, b.0);
+            let mut t = text.clone();
+            t.insert_str(if after { b1 } else { b0 }, &twin);
+            let edited = match hulc::ctehexml::parse_with_catalog(&t).map_err(|e| e.to_string()).and_then(|d| Model::try_from(&d).map_err(|e| e.to_string())) {
+                Ok(m) => m,
+                Err(e) => {
+                    c.sample(|| format!("{}: {} named as {} \"{}\" rejected: {}", fname, a_kind, b_kind, b.1, e.chars().take(90).collect::<String>()));
+                    return;
+                }
+            };
+            let (ta, tb) = (id_table(base), id_table(&edited));
+            let moved: Vec<String> = ta.iter().filter(|(coll, n, id)| !tb.iter().any(|(c2, n2, id2)| c2 == coll && n2 == n && id2 == id)).map(|(coll, n, _)| format!("{} {}", coll, n)).collect();
+            c.check("C05.ids.local", moved.is_empty(), || format!("{}: adding a {} named as the {} \"{}\" ({} it) changed the id of (or lost) {} elements, e.g. {:?}", fname, a_kind, b_kind, b.1, if after { "after" } else { "before" }, moved.len(), &moved[..moved.len().min(3)]));
+            let mut ids: Vec<(Uuid, String)> = tb.iter().map(|(coll, n, id)| (*id, format!("{} {}", coll, n))).collect();
+            ids.sort();
+            let shared: Vec<String> = ids.windows(2).filter(|w| w[0].0 == w[1].0).map(|w| format!("{} / {}", w[0].1, w[1].1)).collect();
+            let mut ids0: Vec<Uuid> = ta.iter().map(|x| x.2).collect();
+            ids0.sort();
+            let shared0 = ids0.windows(2).filter(|w| w[0] == w[1]).count();
+            c.check("C05.ids.namesake_distinct", shared.len() <= shared0, || format!("{}: with a {} named as the {} \"{}\" two elements share an id: {:?}", fname, a_kind, b_kind, b.1, &shared[..shared.len().min(3)]));
+            c.nontrivial(format!("{} {} {}", fname, a_kind, b_kind));
+            c.sample(|| format!("{}: {} named as {} \"{}\": {} -> {} elements, ids kept", fname, a_kind, b_kind, b.1, ta.len(), tb.len()));
         });
     }
 
